@@ -34,6 +34,8 @@ def _key(r):
         "left_base": r["left_base"],
         "left_kind": r["left_kind"],
     }
+    if r["fam"] == "conv":
+        k.update(dtype=r["dt"], shape=r["shape"])
     if r["fam"] in ("bin", "conv"):
         k.update(right=r["right"], right_base=r["right_base"], right_kind=r["right_kind"], same_scale=bool(r["same_scale"]))
     if r["fam"] == "red":
@@ -50,15 +52,29 @@ def _strip(c):
 
 
 def _validate(ck, cases, obs, label):
+    """TLC evaluates P and T on every observation; chunks run concurrently (one JVM each, one worker each);
+    verdicts are registered in chunk order, so the output is deterministic."""
+    import concurrent.futures as cf
+
+    from common import NCPU
+
     recs = [{"c": {k: c[k] for k in ("fam", "op", "form", "u0", "u1", "rs", "shape", "part", "chain", "dt")}, "obs": o} for c, o in zip(cases, obs)]
-    npf = 0
-    for off in range(0, len(recs), CHUNK):
-        part = recs[off : off + CHUNK]
+    chunk = min(CHUNK, max(2000, -(-len(recs) // max(1, NCPU))))
+    offs = list(range(0, len(recs), chunk))
+
+    def one(off):
+        part = recs[off : off + chunk]
         path = ck.write_json(f"obs_{label}_{off}.json", part)
         res = ck.tlc("Trace_C08", env={"OBS": path}, workers=1, coverage=False, label=f"trace-validation {label} [{off}:{off + len(part)}]", timeout=1800)
         if res.distinct != len(part) + 1:
             raise MachineryFailure(f"trace validation consumed {res.distinct} states, expected {len(part) + 1}")
-        ck.validated(len(part))
+        return off, len(part), res
+
+    with cf.ThreadPoolExecutor(max_workers=max(1, min(NCPU, len(offs)))) as ex:
+        results = list(ex.map(one, offs))
+    npf = 0
+    for off, n, res in results:
+        ck.validated(n)
         for r in res.by_tag("T-FAIL"):
             ck.drift_step(f"{r['fam']}:{r['op']}", {"routes": r["routes"], "form": r["form"], "left": r["left"], "right": r["right"], "part": r["part"], "model": r["model"], "observed": r["observed"]})
         for r in res.by_tag("UNDECIDED"):
@@ -70,10 +86,49 @@ def _validate(ck, cases, obs, label):
     return npf
 
 
+FAMILY_GROUPS = [["chain"], ["conv"], ["bin", "red", "ref"], ["mix"]]
+
+
+def _case_tables(ck, cfg):
+    """one TLC run per family group, concurrently (each exports with PrintT: one worker each)."""
+    import concurrent.futures as cf
+    import re
+
+    text = open(ck.spec + f"/{cfg}.cfg").read()
+
+    def one(group):
+        nm = f"{cfg}_{'_'.join(group)}"
+        fams = "{" + ", ".join('"%s"' % g for g in group) + "}"
+        open(ck.spec + f"/{nm}.cfg", "w").write(re.sub(r"Fams = \{[^}]*\}", "Fams = " + fams, text))
+        # no -coverage: TLC's coverage bookkeeping makes the recursive operators of the chain family ~12x slower;
+        # vacuity is excluded by requiring cases of every family instead
+        res = ck.tlc("MC_C08", nm, workers=1, coverage=False, label=f"case table {nm}", timeout=3000)
+        cs = [r["c"] for r in res.by_tag("CASE")]
+        if len(cs) != res.distinct - 1:
+            raise MachineryFailure(f"{nm}: exported {len(cs)} cases for {res.distinct} states")
+        return cs
+
+    with cf.ThreadPoolExecutor(max_workers=len(FAMILY_GROUPS)) as ex:
+        parts = list(ex.map(one, FAMILY_GROUPS))
+    seen = set()
+    cases = []
+    for cs, group in zip(parts, FAMILY_GROUPS):
+        for c in cs:
+            k = json.dumps({f: c[f] for f in ("fam", "op", "form", "u0", "u1", "rs", "shape", "part", "chain", "dt")}, sort_keys=True)
+            if k not in seen:  # the refusal pair table overlaps the binary table on the small prefixes
+                seen.add(k)
+                if group == ["mix"]:
+                    c = dict(c, group="mix")
+                cases.append(c)
+    return cases
+
+
 def run(ck):
     ck.level = "model_checking"
     ck.assumptions += [
-        "units: K, R, degC, degF, delta_degC, delta_degF and ASCII-spelled SI prefixes of K/degC/delta_degC (the two non-ASCII micro signs, Tsun and T_pl are not in the alphabet)",
+        "units: K, R, degC, degF, delta_degC, delta_degF and ASCII-spelled SI prefixes of K/degC/delta_degC (the two non-ASCII micro spellings only in the refusal pair table; Tsun and T_pl are not in the alphabet)",
+        "two differently prefixed Celsius scales (mdegC vs degC) are read as two different offset scales: combining them must raise",
+        "integer sources hold the integral readings of set 1; results are matched at the precision of the float type the library produced (float16 2e-3, float32 5e-6, float64 1e-10)",
         "readings: two fixed sets of three rationals per operand (TLC has no reals); floats are matched to the specification's rationals at rtol 1e-10",
         "TLC 32-bit integers: arithmetic pairs are restricted to prefixes whose decimal exponents differ by at most 6; conversion sources with a zero point different from the target's to |exponent| <= 3",
         "to_value returns a bare number: it is taken to be labelled with the requested unit",
@@ -90,19 +145,20 @@ def run(ck):
         return
 
     cfg = ck.q("MC_C08_quick", "MC_C08_thorough")
-    # no -coverage here: TLC's coverage bookkeeping makes the recursive operators of the chain family ~12x slower;
-    # vacuity is excluded below by requiring cases of every family instead
-    res = ck.tlc("MC_C08", cfg, workers=1, coverage=False, label=f"case table {cfg}", timeout=3000)
-    cases = [r["c"] for r in res.by_tag("CASE")]
-    if len(cases) != res.distinct - 1 or len(cases) < 1000:
-        raise MachineryFailure(f"exported {len(cases)} cases for {res.distinct} states")
+    cases = _case_tables(ck, cfg)
+    if len(cases) < 1000:
+        raise MachineryFailure(f"exported only {len(cases)} cases")
     cases.sort(key=lambda c: json.dumps({k: c[k] for k in ("fam", "op", "form", "u0", "u1", "rs", "shape", "part", "chain", "dt")}, sort_keys=True))
     ck.cov["exhaustive"] = True
     fams = {}
     for c in cases:
         fams[c["fam"]] = fams.get(c["fam"], 0) + 1
+    fams["bin(refusal pair table)"] = sum(1 for c in cases if c.get("group") == "mix")
     ck.cov["cases_by_family"] = fams
-    for fam in ("bin", "conv", "red", "ref", "chain"):
+    ck.cov["cases_by_dtype"] = {}
+    for c in cases:
+        ck.cov["cases_by_dtype"][c["dt"]] = ck.cov["cases_by_dtype"].get(c["dt"], 0) + 1
+    for fam in ("bin", "conv", "red", "ref", "chain", "bin(refusal pair table)"):
         if not fams.get(fam):
             raise MachineryFailure(f"no case of family {fam} generated (vacuous instance)")
     model_cex = {}
